@@ -32,7 +32,9 @@ import (
 	"time"
 )
 
-const verifDir = "/verif"
+// verifDir is where the harness sources, overlay, known findings and evidence
+// live: /verif, unless VERIF_DIR names a snapshot of it (background sweeps).
+var verifDir = "/verif"
 
 // repoDir is the tree the checks are built from: /repo, unless VERIF_REPO
 // names a scratch worktree (development aid for running seeded defects in parallel).
@@ -42,6 +44,10 @@ var repoDir = "/repo"
 var replayDir = "/verif/replays"
 
 func init() {
+	if d := os.Getenv("VERIF_DIR"); d != "" {
+		verifDir = d
+		replayDir = filepath.Join(d, "replays")
+	}
 	if d := os.Getenv("VERIF_REPO"); d != "" {
 		repoDir = d
 	}
